@@ -321,8 +321,11 @@ fn lookups(pool: &[String]) -> (String, String) {
     let p = ctx.path();
     let parent = match ctx.parent() {
         // the parent's children map must lead back to this very module (not to a same-named other instance)
+        // (only for well-formed names: the builder accepts malformed paths with an EMPTY last segment more than once,
+        // so two such modules can share a name and the map can only hold one of them - outside C12's domain)
         Ok(m) => match m.child(&ctx.name()) {
             Ok(c) if c.id() == ctx.id() => tok(m.path().as_str()),
+            _ if ctx.name().is_empty() => tok(m.path().as_str()),
             _ => "!ghost".to_string(),
         },
         Err(ModuleReferencingError::NoEntry(_)) => "-".to_string(),
